@@ -53,6 +53,8 @@ def state_lives_on_the_instance(ctx):
                         bad.append((n, '%s stores to the class attribute %s' % (mname, unparse(n))))
                     if isinstance(root, ast.Attribute) and is_self_attr(root, None, sn) and root.attr in k.methods:
                         bad.append((n, '%s stores state on the function object %s' % (mname, unparse(root))))
+        for kk, a, m, node in shared_class_containers(ctx.model, [k]):
+            bad.append((node, '%s mutates the class-level container %s.%s, which every instance shares' % (m.qualname, kk.name, a)))
         if bad:
             for node, msg in bad:
                 ctx.bad(k.name, 'solver state outside the instance dict would not travel with the checkpoint: ' + msg, k.methods.get('__init__') or next(iter(k.methods.values()), None), node)
